@@ -105,7 +105,7 @@ func (x *runner) exec(f []string) {
 			o := env.Read(u64(a[0]), uint32(u64(a[1])))
 			if len(o) >= 11 && o[0] == "ok" {
 				if u64(o[4])&8 != 0 {
-					o[8] = hx.I(x.base - int64(u64(o[8])))
+					o[8] = hx.U(uint64(x.base - int64(u64(o[8])))) // a LastModified ahead of the clock is a negative age (two's complement)
 				}
 			}
 			return o
@@ -331,6 +331,66 @@ func randomHistory(x *runner, rng *hx.Rng, kind string) {
 	x.sweep(ids, ck0)
 }
 
+// aheadOfClock: TTL volumes holding blobs whose client-supplied LastModified lies AHEAD of the
+// server clock (a client whose clock runs fast: +5 s, +2 h, ...) next to server-stamped and older
+// ones; compaction long before anything expires, every id read before and after the commit.
+// The age token of such a blob is negative (uint64 two's complement).
+func aheadOfClock(x *runner, rng *hx.Rng, kind string) {
+	vts := []string{"1d", "1h", "3h", "20m", "5w"}
+	x.exec([]string{"reset", kind, vts[rng.Intn(len(vts))]})
+	ahead := []int64{5, 7200, 60, 1 + int64(rng.Intn(100000))}
+	nid := 2 + rng.Intn(4)
+	ids := make([]uint64, nid)
+	for i := range ids {
+		ids[i] = uint64(1 + i)
+		if rng.Chance(1, 3) {
+			ids[i] = 100 + rng.U64()%(1<<40)
+		}
+	}
+	put := func(i int, k int) {
+		c := &vol.Content{Data: rng.Bytes(1 + rng.Intn(30)), Flags: 8}
+		switch k % 4 {
+		case 0, 1:
+			c.Lm = uint64(-ahead[rng.Intn(len(ahead))])
+			if i < 2 {
+				c.Lm = uint64(-ahead[i])
+			}
+		case 2:
+			c.Lm = 0
+		default:
+			c.Lm = 300
+		}
+		if rng.Chance(1, 4) {
+			c.Flags |= 2
+			c.Name = []byte("n.txt")
+		}
+		x.w(ids[i], ck0, c)
+	}
+	for i := range ids {
+		put(i, i)
+	}
+	if rng.Chance(1, 3) {
+		x.op2("d", ids[rng.Intn(nid)], ck0)
+	}
+	x.sweep(ids, ck0)
+	rounds := 1 + rng.Intn(2)
+	for r := 0; r < rounds; r++ {
+		alg := "2"
+		if rng.Bool() {
+			alg = "1"
+		}
+		x.exec([]string{"compact", alg})
+		if rng.Chance(1, 3) {
+			put(rng.Intn(nid), rng.Intn(2))
+		}
+		x.sweep(ids, ck0)
+		x.exec([]string{"commit"})
+		if x.sweep(ids, ck0) {
+			return
+		}
+	}
+}
+
 type task func(x *runner, rng *hx.Rng)
 
 func main() {
@@ -372,6 +432,16 @@ func main() {
 				kind = "ldb"
 			}
 			randomHistory(x, rng, kind)
+		})
+	}
+	for i := 0; i < a.N(24); i++ {
+		i := i
+		tasks = append(tasks, func(x *runner, rng *hx.Rng) {
+			kind := "mem"
+			if i%2 == 1 {
+				kind = "ldb"
+			}
+			aheadOfClock(x, rng, kind)
 		})
 	}
 	results := make([]chan []line, len(tasks))
